@@ -54,6 +54,10 @@ CLAIMS = {
          "Decides structural necessary conditions over the 26 functions reachable from partition.Read: every success return of the CRC-computing readers lies behind the CRC equality edge over the decoded bytes; every device-derived value reaching a make length, divisor, slice bound, index or the step of a slice-shrinking loop is bounded by a dominating comparison (directly, through its operands, through the validation at the store of the field it is loaded from, or - for lengths only - by a type of at most 16 bits). Loop counters compared with a device-derived bound inherit its taint. Does not prove termination or panic-freedom in general: untainted indices and arithmetic overflow inside guarded ranges are out of scope.",
          "Taint is flow-insensitive across functions and field-based; a guard is a comparison with an untainted value or len() on the bounding edge - whether the constant is small enough is not judged.",
          "DESIGN.md §4 C15"),
+ "C18": ("taint of device-derived values x dominating guards x value-range width, over the ~450 functions reachable (with constant folding of read-only flags) from the six readers; checksum-verified decoders are not taint sources under the property's single-field corruption model",
+         "Decides structural necessary conditions: a device-derived make length whose range exceeds 16 MiB is bounded by a dominating comparison (on it, on a value computed from it, on its operands, at the store of the field it is loaded from, or by a validator call); every device-derived divisor is proven non-zero; slice-shrinking loop steps are proven positive; FAT cluster-chain walks carry a link-count bound. Nine allocation sites (iso9660 x6, fat32, squashfs, ext4) violate the rule today and are listed as known findings with the corrupted field that triggers each; five defects were repaired. Slice/index panics, decompression bombs and time bounds are not covered.",
+         "Whether a bounding constant is small enough is not judged (only that a bound exists); taint is field-based and flow-insensitive across functions.",
+         "DESIGN.md §4 C18"),
 }
 
 NOT_APPLICABLE = {
